@@ -4,7 +4,10 @@ impl: histories over {new from each template, open a sample (by path, from a buf
 add_file (path | file-like, repeated content), del_part, image frames, merge_styles_from, body / meta /
 styles edits, reads of lazy parts, clone, save, reopen} on every document type.
 observed (zipfile + lxml only): entry order and compression, duplicate names, manifest entries vs
-the files of the package, root media type.  model: OdfModel/Package.lean (ledger refinement)."""
+the files of the package, root media type.  model: OdfModel/Package.lean (ledger refinement).
+A second family of histories (oracle only, not mirrored in the Lean model) merges styles from sources whose
+styles reference packaged pictures (master-page images, draw:fill-image) interleaved with del_part of pictures,
+add_file, clone, save + reopen and further merges."""
 from __future__ import annotations
 
 import io
@@ -26,7 +29,11 @@ def run(chk: core.Check) -> None:
         "histories of 1..8 operations over {body / meta / styles edit, add_file by path or file-like (repeated content), del_part (any optional part, pictures, "
         "manifest.rdf), image frame, merge_styles_from, lazy reads, clone (continue on the clone), save + reopen (continue on the reopened document)} from the "
         "four templates and from samples opened by path / buffer / folder; every save is inspected. non-trivial = the history adds or deletes a part; distinct "
-        "by (origin, history)"
+        "by (origin, history). picture-merge family (zipfile/lxml oracle only): histories of 2..9 operations over {merge_styles_from a source whose styles "
+        "reference packaged pictures (samples with master-page images / draw:fill-image, opened by path or buffer; documents of each type built with add_file + "
+        "DrawFillImage / an image frame in a master page, live or saved + reopened; 1..2 sources per history, source object reused or reopened), del_part of a "
+        "picture (preferably one a source carries), add_file (also the bytes of a source picture), image frame, body / styles edit, plain template merge, "
+        "get_parts, clone, save + reopen} on the same destinations; every save is inspected"
     )
     tmp = Path(tempfile.mkdtemp(prefix="c04-", dir="/var/tmp"))
     mirror = pkg.Mirror()
@@ -46,6 +53,23 @@ def run(chk: core.Check) -> None:
                 continue
             mirror.new(s)
             one_history(chk, rng, s, tmp)
+            for f in tmp.glob("src-*"):
+                if f.is_dir():
+                    shutil.rmtree(f, ignore_errors=True)
+                else:
+                    f.unlink(missing_ok=True)
+        samples = picture_sources()
+        for h in range(chk.n(110, 1500)):
+            kind = rng.choice(["template", "template", "path", "bytesio", "folder"])
+            try:
+                s = pkg.open_subject(rng, kind, tmp)
+            except Exception as e:  # noqa: BLE001
+                chk.fail({"origin": kind, "exception": repr(e), "clause": "open"}, f"opening the source raised {type(e).__name__}")
+                continue
+            if not pkg.source_coherent(s.files):
+                continue
+            chk.count("origin (picture-merge family)", s.origin)
+            picture_history(chk, rng, s, tmp, samples)
             for f in tmp.glob("src-*"):
                 if f.is_dir():
                     shutil.rmtree(f, ignore_errors=True)
@@ -129,6 +153,170 @@ def one_history(chk, rng, s, tmp):
         return
     chk.mirror.save(s, data, s.doc.container.default_manifest_rdf.encode("utf8"))
     check_saved(chk, s, data, case)
+
+
+# ---- picture-merge family: sources whose styles reference pictures of their own package -------------------------
+
+PIC_OTHER_OPS = ("body", "styles", "add_file_path", "add_file_io", "add_same", "add_same_path", "frame", "merge", "parts")
+
+
+def picture_sources() -> dict:
+    """name -> (path, {picture url: bytes}) for the samples whose styles reference packaged pictures
+    (draw:image under a master page, draw:fill-image) and whose own package is coherent"""
+    out = {}
+    for p in pkg.sample_files():
+        try:
+            files = pkg.ledger_from_zip_bytes(p.read_bytes())
+            urls = pkg.merged_picture_urls(files)
+        except Exception:  # noqa: BLE001
+            continue
+        if urls and all(u in files for u in urls) and pkg.source_coherent(files):
+            out[p.name] = (p, {u: files[u] for u in urls})
+    return out
+
+
+def gen_source_spec(rng, samples: dict) -> dict:
+    if samples and rng.random() < 0.5:
+        return {"kind": "sample", "name": rng.choice(sorted(samples)), "via": rng.choice(["path", "bytesio"])}
+    pictures = [[rng.choice(["png", "jpg"]), rng.randrange(4), rng.choice(["fill", "master"])] for _ in range(rng.randrange(1, 3))]
+    return {"kind": "built", "type": rng.choice(list(pkg.TEMPLATES)), "pictures": pictures, "via": rng.choice(["live", "saved"])}
+
+
+def open_source(spec: dict, samples: dict):
+    """(Document, {picture url: bytes}) : the source of a merge and the pictures its styles point at"""
+    from odfdo import Document, DrawFillImage, Element, Frame, Paragraph
+
+    if spec["kind"] == "sample":
+        path, pics = samples[spec["name"]]
+        doc = Document(path) if spec["via"] == "path" else Document(io.BytesIO(path.read_bytes()))
+        return doc, dict(pics)
+    doc = Document(spec["type"])
+    pics = {}
+    for j, (kind, i, where) in enumerate(spec["pictures"]):
+        data, _ = pkg.blob_bytes(kind, i)
+        uri = doc.add_file(io.BytesIO(data))
+        pics[uri] = data
+        if where == "fill":
+            doc.insert_style(DrawFillImage(name=f"Fill{j}", display_name=f"Fill {j}", url=uri))
+            continue
+        frame = Frame.image_frame(uri, size=("1cm", "1cm"), anchor_type="paragraph")
+        master = doc.styles.get_elements("//style:master-page")[0]
+        if spec["type"] in ("presentation", "drawing"):
+            master.append(frame)
+        else:
+            header = master.get_element("style:header")
+            if header is None:
+                header = Element.from_tag("style:header")
+                master.append(header)
+            para = Paragraph("")
+            para.append(frame)
+            header.append(para)
+    if spec["via"] == "saved":
+        doc = Document(io.BytesIO(pkg.save_zip_bytes(doc)))
+    return doc, pics
+
+
+def picture_history(chk, rng, s, tmp, samples: dict) -> None:
+    from odfdo import Document
+
+    specs = [gen_source_spec(rng, samples) for _ in range(rng.choice([1, 1, 2]))]
+    for spec in specs:
+        chk.count("picture-merge source", spec["kind"] + ":" + (spec["name"] + " by " + spec["via"] if spec["kind"] == "sample" else spec["type"] + " " + spec["via"]))
+    live: dict = {}
+    carried: dict = {}          # picture url -> bytes, over the sources merged so far
+    deleted: set = set()        # carried pictures deleted from the destination since it was last (re)opened
+    nontriv = False
+
+    def case():
+        return {"origin": s.name, "family": "picture-merge", "sources": specs, "history": s.log}
+
+    def save_and_check() -> bytes | None:
+        chk.case((s.name, repr(specs), repr(s.log)), nontrivial=nontriv, sample=case() if nontriv else None)
+        try:
+            data = pkg.save_zip_bytes(s.doc)
+        except Exception as e:  # noqa: BLE001
+            chk.fail({**case(), "exception": repr(e), "clause": "save-raises"}, f"save raised {type(e).__name__}")
+            return None
+        return data if check_saved(chk, s, data, case()) else None
+
+    for _ in range(rng.randrange(2, 10)):
+        r = rng.random()
+        if r < 0.10:
+            s.log.append(["clone"])
+            chk.count("operation (picture-merge family)", "clone")
+            try:
+                s.doc = s.doc.clone
+            except Exception as e:  # noqa: BLE001
+                chk.fail({**case(), "exception": repr(e), "clause": "clone-raises"}, f"clone raised {type(e).__name__}")
+                return
+            continue
+        if r < 0.22:
+            s.log.append(["save+reopen"])
+            chk.count("operation (picture-merge family)", "save+reopen")
+            data = save_and_check()
+            if data is None:
+                return
+            s.doc = Document(io.BytesIO(data))
+            deleted.clear()
+            continue
+        if r < 0.52:
+            k = rng.randrange(len(specs))
+            fresh = k not in live or rng.random() < 0.3
+            op = ["merge_from", k, "fresh source object" if fresh else "same source object"]
+            chk.count("operation (picture-merge family)", "merge_from")
+            try:
+                if fresh:
+                    live[k] = open_source(specs[k], samples)
+            except Exception as e:  # noqa: BLE001
+                chk.fail({**case(), "op": op, "exception": repr(e), "clause": "open"}, f"building / opening the merge source raised {type(e).__name__}")
+                return
+            other, pics = live[k]
+            held = sorted(u for u in pics if u in s.files)
+            again = sorted(u for u in pics if u in deleted)
+            s.log.append(op)
+            try:
+                s.doc.merge_styles_from(other)
+            except Exception as e:  # noqa: BLE001
+                chk.fail({**case(), "op": op, "exception": repr(e), "clause": "operation-raises"}, f"merge_styles_from raised {type(e).__name__}")
+                return
+            what = ("a picture of the source was deleted from the destination before (no reopen in between)" if again
+                    else "the destination already holds a picture of the source" if held else "the pictures of the source are new to the destination")
+            chk.count("picture-merge situation", what)
+            for u, b in pics.items():
+                s.files[u] = b
+                carried[u] = b
+                deleted.discard(u)
+            nontriv = True
+            continue
+        if r < 0.78:
+            pics = sorted(n for n in s.files if n.startswith("Pictures/") and not n.endswith("/"))
+            pref = [n for n in pics if n in carried]
+            if not pics:
+                continue
+            name = rng.choice(pref) if pref and rng.random() < 0.75 else rng.choice(pics)
+            op = ("del_part", name)
+        elif r < 0.84 and carried:
+            # the bytes of a source picture through add_file: same content, name chosen by add_file
+            u = rng.choice(sorted(carried))
+            s.last_added = (u, carried[u])
+            op = ("add_same", "the bytes of " + u)
+        else:
+            op = pkg.gen_op(rng, s)
+            if op[0] not in PIC_OTHER_OPS:
+                continue
+        chk.count("operation (picture-merge family)", op[0])
+        try:
+            res = pkg.apply_op(s, op, tmp)
+        except Exception as e:  # noqa: BLE001
+            chk.fail({**case(), "op": list(op), "exception": repr(e), "clause": "operation-raises"}, f"{op[0]} raised {type(e).__name__}")
+            return
+        if res == "NOOP":
+            continue
+        if op[0] == "del_part" and op[1] in carried:
+            deleted.add(op[1])
+        if op[0] not in ("body", "styles", "parts"):
+            nontriv = True
+    save_and_check()
 
 
 def replay(obj: dict) -> int:
